@@ -72,7 +72,11 @@ func DrawSXG(c *core.Ctx, label string, uniq int) *LSXG {
 	if c.Chance(label+".rawURL", 1, 6) {
 		// forms that net/url would re-serialize differently: the library must carry the
 		// caller's string unchanged through signing, writing and reading
-		switch c.Pick(label+".rawURLkind", 6) {
+		switch c.Pick(label+".rawURLkind", 8) {
+		case 6, 7:
+			// no path at all (the authority is the whole URL), with or without a query
+			l.URL = fmt.Sprintf("https://%s%s%s", host, port, c.PickStr(label+".emptyPathQ", "", "", "?v=1"))
+			c.Probe("request URL with an empty path")
 		case 0:
 			l.URL = "HTTPS" + l.URL[5:]
 		case 1:
@@ -89,6 +93,12 @@ func DrawSXG(c *core.Ctx, label string, uniq int) *LSXG {
 		c.Probe("URL whose net/url re-serialization differs")
 	}
 	l.Method = "GET"
+	if l.Version == "1b3" && c.Chance(label+".b3method", 1, 6) {
+		// 1b3 has no request method on the wire; whatever the caller's object holds is not
+		// part of the exchange
+		l.Method = c.PickStr(label+".b3methodValue", "", "POST", "get", "HEAD")
+		c.Probe("1b3 exchange object holding another method")
+	}
 	if l.Version != "1b3" {
 		l.Method = c.PickStr(label+".method", "GET", "GET", "HEAD")
 		if c.Bool(label + ".reqhdr") {
